@@ -48,7 +48,13 @@ theorem eq_same_offsets_fixed_partial (a b : Zone) (oa ob : Int)
 `Reachable kd res (initState cap scripts) s`: `s` is reached from the empty factory of kind `kd`
 (lru = tzoffset/tzstr, gettz) with ANY strong-cache size, ANY list of thread scripts, by ANY
 sequence of steps — one statement of some thread, a caller dropping a reference, or the
-collection of an unreferenced weak entry.  `res` (how gettz.nocache resolves each name) is arbitrary. -/
+collection of an unreferenced weak entry.  `res` (how gettz.nocache resolves each name) is arbitrary.
+
+What is trusted about the standard library in these theorems: one read or one write of the weak
+dictionary is a step (`WeakValueDictionary.setdefault` is NOT assumed atomic: it is the two steps
+lSdRead / lSdWrite, and another thread may run between them), a dead entry disappears in one
+step, and the lock gives mutual exclusion.  The OrderedDict is only touched under the lock
+(`lock_discipline`), so nothing is assumed about the atomicity of its methods. -/
 
 variable {kd : Kind} {res : Key → Res} {cap : Nat} {scripts : List (List Op)} {s : State}
 
@@ -98,7 +104,7 @@ theorem fresh_constructors (h : Reachable kd res (initState cap scripts) s)
       g'.held = s.g.held ∧ g'.epoch = s.g.epoch ∧ g'.single = s.g.single) ∧
     (th.pc = .fAlloc → ∀ i, th'.tmp = some i →
       (∀ k, s.g.weak k ≠ some i) ∧ (∀ e ∈ s.g.strong, e.2 ≠ i) ∧ (∀ r ∈ s.g.held, r.id ≠ i) ∧
-      (∀ (t2 : Tid) (th2 : Thread), s.ths[t2]? = some th2 → th2.inst ≠ some i ∧ th2.tmp ≠ some i)) := by
+      (∀ (t2 : Tid) (th2 : Thread), s.ths[t2]? = some th2 → th2.inst ≠ some i ∧ th2.tmp ≠ some i ∧ th2.seen ≠ some i)) := by
   have hI := reachable_inv (init_inv (kd := kd) (res := res) cap scripts) h
   refine ⟨fresh_frame hpc hs, ?_⟩
   intro hA i hi
@@ -111,7 +117,8 @@ theorem fresh_constructors (h : Reachable kd res (initState cap scripts) s)
     · intro r hr hk; have := hI.gi.heldLt r hr; rw [hk] at this; exact Nat.lt_irrefl _ this
     · intro t2 th2 h2
       exact ⟨fun hk => Nat.lt_irrefl _ ((hI.ti t2 th2 h2).instLt _ hk),
-             fun hk => Nat.lt_irrefl _ ((hI.ti t2 th2 h2).tmpLt _ hk)⟩
+             fun hk => Nat.lt_irrefl _ ((hI.ti t2 th2 h2).tmpLt _ hk),
+             fun hk => Nat.lt_irrefl _ ((hI.ti t2 th2 h2).seenLt _ hk)⟩
 
 /-- `set_cache_size` only affects retention: every statement of it leaves the weak map, callers'
 references, the epoch and the set of objects unchanged (it changes the strong cache, its size, the lock) -/
